@@ -24,5 +24,8 @@ def run(prop, tier, replay):
     if prop == "C10":
         import p_c10
         return p_c10.replay(replay) if replay else p_c10.check(tier)
+    if prop == "C19":
+        import p_c19
+        return p_c19.replay(replay) if replay else p_c19.check(tier)
     sys.stderr.write("no check implemented for %s\n" % prop)
     return 2
